@@ -251,6 +251,10 @@ def run_world(plan, world=None):
   tr.dyn = dyn
   if plan.get('balancer') == 'heap':
     b = b.ReplaceRole(SinkRole.LoadBalancer, HeapBalancerSink.Builder())
+  elif plan.get('balancer') == 'aperture':
+    # the default balancer with explicit settings (e.g. jitter every 1-2 s instead of every 2-4 minutes)
+    from scales.loadbalancer.aperture import ApertureBalancerSink
+    b = b.ReplaceRole(SinkRole.LoadBalancer, ApertureBalancerSink.Builder(**plan.get('aperture', {})))
   pool = plan.get('pool')
   if pool and stack == 'thrift':
     kw = {}
